@@ -9,7 +9,7 @@ extern crate rustc_middle;
 extern crate rustc_span;
 
 use rustc_driver::Compilation;
-use rustc_middle::mir::{BasicBlock, TerminatorKind};
+use rustc_middle::mir::{BasicBlock, Body, CastKind, Local, Operand, Rvalue, StatementKind, TerminatorKind};
 use rustc_middle::ty::{self, Instance, TyCtxt, TypingEnv};
 use std::io::Write;
 
@@ -32,6 +32,41 @@ fn sccs(n: usize, succ: &dyn Fn(usize) -> Vec<usize>) -> Vec<Vec<usize>> {
     let mut s = S { idx: vec![None; n], low: vec![0; n], on: vec![false; n], st: vec![], next: 0, out: vec![], succ };
     for v in 0..n { if s.idx[v].is_none() { go(&mut s, v); } }
     s.out
+}
+
+/// the single definition of a local, if it is assigned exactly once by a plain statement
+fn def_of<'a, 'tcx>(body: &'a Body<'tcx>, l: Local) -> Option<&'a Rvalue<'tcx>> {
+    let mut found = None;
+    for bb in body.basic_blocks.iter() {
+        for st in &bb.statements {
+            if let StatementKind::Assign(b) = &st.kind {
+                if b.0.as_local() == Some(l) { if found.is_some() { return None; } found = Some(&b.1); }
+            }
+        }
+        // a call writing the local is a second definition
+        if let TerminatorKind::Call { destination, .. } = &bb.terminator().kind { if destination.as_local() == Some(l) { return None; } }
+    }
+    found
+}
+/// `index` is `discriminant(e) as usize` (through copies) of a fieldless enum all of whose discriminants are below `len`
+fn index_is_small_enum_cast<'tcx>(tcx: TyCtxt<'tcx>, body: &Body<'tcx>, index: &Operand<'tcx>, len: u64) -> bool {
+    let mut cur = match index { Operand::Copy(p) | Operand::Move(p) => match p.as_local() { Some(l) => l, None => return false }, _ => return false };
+    for _ in 0..8 {
+        let Some(rv) = def_of(body, cur) else { return false };
+        match rv {
+            Rvalue::Use(Operand::Copy(p), _) | Rvalue::Use(Operand::Move(p), _) => match p.as_local() { Some(l) => cur = l, None => return false },
+            Rvalue::Cast(CastKind::IntToInt, Operand::Copy(p) | Operand::Move(p), _) => match p.as_local() { Some(l) => cur = l, None => return false },
+            Rvalue::Discriminant(place) => {
+                let ty = place.ty(&body.local_decls, tcx).ty;
+                if let ty::Adt(def, _) = ty.kind() {
+                    if def.is_enum() { return def.discriminants(tcx).all(|(_, d)| (d.val as u64) < len && d.val < u64::MAX as u128); }
+                }
+                return false;
+            }
+            _ => return false,
+        }
+    }
+    false
 }
 
 impl rustc_driver::Callbacks for Cb {
@@ -83,6 +118,8 @@ impl rustc_driver::Callbacks for Cb {
                     TerminatorKind::Assert { msg, .. } => {
                         let k = format!("{:?}", std::mem::discriminant(&**msg));
                         let desc = match &**msg {
+                            // indexing a fixed-size table by `enum as usize` with every discriminant inside the table cannot fail
+                            rustc_middle::mir::AssertKind::BoundsCheck { len: Operand::Constant(c), index } if c.const_.try_eval_target_usize(tcx, TypingEnv::post_analysis(tcx, did)).map(|n| index_is_small_enum_cast(tcx, body, index, n)).unwrap_or(false) => "bounds-proved",
                             rustc_middle::mir::AssertKind::BoundsCheck { .. } => "bounds",
                             rustc_middle::mir::AssertKind::Overflow(..) => "overflow",
                             rustc_middle::mir::AssertKind::OverflowNeg(..) => "overflow-neg",
